@@ -344,9 +344,12 @@ def run(ctx):
             n += 1
             allocs = [l[2] for l in b.origins(c.args[0]) if l[0] in ("call", "agg")]
             inst.sites.append(sp(b, c.bb) + " buffer <- " + fmt_leaves(b.origins(c.args[0])))
-            for l in arith_origins(b, c.args[1]):
-                if l[0] != "call" or not re.search(r"Iterator>::next$|Iterator::next$|range::<impl .*>::next$", l[1]):
-                    continue
+            AL = arith_origins(b, c.args[1])
+            restarting = [l for l in AL if l[0] == "call" and re.search(r"Iterator>::next$|Iterator::next$|range::<impl .*>::next$", l[1])]
+            # a running offset added to the per-batch counter (base + row) makes the position global again
+            if [l for l in AL if l not in restarting and l[0] != "const"]:
+                continue
+            for l in restarting:
                 nx = b.call_at(l[2])
                 for l2 in b.origins(nx.args[0]):
                     if l2[0] in ("call", "agg") and allocs and in_cycle(b, l2[2], cut_blocks=allocs):
